@@ -547,6 +547,118 @@ pub extern "C" fn harness_mem() -> i32 {
     0
 }
 
+// ---------------------------------------------------------------------------------------------
+// Tables and constants (C17).
+use sc62015_core::llama::opcodes::{OperandKind, RegImemOffsetKind, OPCODES};
+
+fn reg_code(r: RegName) -> u32 {
+    match r {
+        RegName::A => 0,
+        RegName::B => 1,
+        RegName::BA => 2,
+        RegName::IL => 3,
+        RegName::IH => 4,
+        RegName::I => 5,
+        RegName::X => 6,
+        RegName::Y => 7,
+        RegName::U => 8,
+        RegName::S => 9,
+        RegName::F => 10,
+        RegName::PC => 11,
+        RegName::FC => 12,
+        RegName::FZ => 13,
+        RegName::IMR => 14,
+        RegName::Temp(n) => 100 + n as u32,
+        RegName::Unknown(_) => 255,
+    }
+}
+
+fn operand_code(o: &OperandKind) -> (u32, u32, u32) {
+    match *o {
+        OperandKind::Reg(r, w) => (1, reg_code(r), w as u32),
+        OperandKind::Imm(w) => (2, w as u32, 0),
+        OperandKind::ImmOffset => (3, 0, 0),
+        OperandKind::IMem(w) => (4, w as u32, 0),
+        OperandKind::EMemAddr(w) => (5, w as u32, 0),
+        OperandKind::EMemReg(w) => (6, w as u32, 0),
+        OperandKind::EMemIMem(w) => (7, w as u32, 0),
+        OperandKind::EMemImemOffsetDestIntMem => (8, 0, 0),
+        OperandKind::EMemImemOffsetDestExtMem => (9, 0, 0),
+        OperandKind::EMemRegModePostPre => (10, 0, 0),
+        OperandKind::EMemAddrWidth(w) => (11, w as u32, 0),
+        OperandKind::EMemAddrWidthOp(w) => (12, w as u32, 0),
+        OperandKind::EMemRegWidth(w) => (13, w as u32, 0),
+        OperandKind::EMemRegWidthMode(w) => (14, w as u32, 0),
+        OperandKind::EMemIMemWidth(w) => (15, w as u32, 0),
+        OperandKind::IMemWidth(w) => (16, w as u32, 0),
+        OperandKind::RegPair(w) => (17, w as u32, 0),
+        OperandKind::RegIMemOffset(k) => (18, match k { RegImemOffsetKind::DestImem => 0, RegImemOffsetKind::DestRegOffset => 1 }, 0),
+        OperandKind::RegB => (19, 0, 0),
+        OperandKind::RegIL => (20, 0, 0),
+        OperandKind::RegIMR => (21, 0, 0),
+        OperandKind::RegF => (22, 0, 0),
+        OperandKind::Reg3 => (23, 0, 0),
+        OperandKind::Unknown(_) => (24, 0, 0),
+        OperandKind::Placeholder => (25, 0, 0),
+        OperandKind::ImemPtr => (26, 0, 0),
+    }
+}
+
+/// One entry of the static opcode table, selected by input 600 (symbolic in the check).
+#[no_mangle]
+pub extern "C" fn harness_opcode_entry() -> i32 {
+    let e = &OPCODES[(vin(600) & 0xFF) as usize];
+    vout(0, e.opcode as u32);
+    vout(1, e.kind as u32);
+    vout(2, e.name.len() as u32);
+    for (i, b) in e.name.bytes().enumerate().take(12) {
+        vout(10 + i as u32, b as u32);
+    }
+    match e.cond {
+        None => vout(3, 0),
+        Some(c) => {
+            vout(3, 1 + c.len() as u32);
+            for (i, b) in c.bytes().enumerate().take(4) {
+                vout(30 + i as u32, b as u32);
+            }
+        }
+    }
+    vout(4, match e.ops_reversed { None => 0, Some(false) => 1, Some(true) => 2 });
+    vout(5, e.operands.len() as u32);
+    for (i, o) in e.operands.iter().enumerate().take(6) {
+        let (t, p, q) = operand_code(o);
+        vout(40 + 3 * i as u32, t);
+        vout(41 + 3 * i as u32, p);
+        vout(42 + 3 * i as u32, q);
+    }
+    0
+}
+
+/// Public constants of the crate that duplicate Python-side definitions, and mask_for of every register.
+#[no_mangle]
+pub extern "C" fn harness_consts() -> i32 {
+    use sc62015_core::memory as M;
+    use sc62015_core::pce500 as P;
+    let c: [(u32, u32); 28] = [
+        (0, M::INTERNAL_MEMORY_START), (1, M::ADDRESS_MASK), (2, M::INTERNAL_ADDR_MASK), (3, M::EXTERNAL_SPACE as u32),
+        (4, M::INTERNAL_SPACE as u32), (5, M::INTERNAL_RAM_START as u32), (6, M::INTERNAL_RAM_SIZE as u32),
+        (10, M::IMEM_KOL_OFFSET), (11, M::IMEM_KOH_OFFSET), (12, M::IMEM_KIL_OFFSET), (13, M::IMEM_BP_OFFSET), (14, M::IMEM_PX_OFFSET),
+        (15, M::IMEM_PY_OFFSET), (16, M::IMEM_UCR_OFFSET), (17, M::IMEM_USR_OFFSET), (18, M::IMEM_RXD_OFFSET), (19, M::IMEM_TXD_OFFSET),
+        (20, M::IMEM_IMR_OFFSET), (21, M::IMEM_ISR_OFFSET), (22, M::IMEM_SCR_OFFSET), (23, M::IMEM_LCC_OFFSET), (24, M::IMEM_SSR_OFFSET),
+        (30, P::ROM_RESET_VECTOR_ADDR), (31, P::ROM_WINDOW_START as u32), (32, P::ROM_WINDOW_LEN as u32), (33, P::SYSTEM_IMAGE_LEN as u32),
+        (34, P::NO_RAM_WINDOW_START as u32), (35, P::NO_RAM_WINDOW_END as u32),
+    ];
+    for (i, v) in c.iter() {
+        vout(*i, *v);
+    }
+    let regs = [RegName::A, RegName::B, RegName::BA, RegName::IL, RegName::IH, RegName::I, RegName::X, RegName::Y, RegName::U, RegName::S,
+                RegName::F, RegName::PC, RegName::FC, RegName::FZ, RegName::IMR];
+    for r in regs.iter() {
+        vout(100 + reg_code(*r), mask_for(*r));
+    }
+    0
+}
+
 /// Entry-point dispatch for the native replay binary.
 pub fn dispatch(name: &str) -> i32 {
     match name {
@@ -558,6 +670,8 @@ pub fn dispatch(name: &str) -> i32 {
         "harness_lcd_op" => harness_lcd_op(),
         "harness_lcd_pixels" => harness_lcd_pixels(),
         "harness_mem" => harness_mem(),
+        "harness_opcode_entry" => harness_opcode_entry(),
+        "harness_consts" => harness_consts(),
         "harness_kb" => harness_kb(),
         "harness_kb_native" => harness_kb_native(),
         _ => -999,
